@@ -89,7 +89,7 @@ def run_property(pid, tier, seed, relock=False, verbose=False):
                 if flt and any(case.get(k2) != v2 for k2, v2 in flt.items()):
                     continue
                 tasks.append((q, ci, {'timeout': timeout, 'retry': retry, 'seed': seed % 1000, 'procs': 8, 'case': case, 'kinds': P.get('kinds'), 'want_hash': relock}))
-    for out in isolate.run(tasks, build, jobs=3):
+    for out in isolate.run(tasks, build, jobs=5):
         q = out['q']
         if out.get('error'):
             print(out['error'])
